@@ -7,6 +7,8 @@ lazy_static! {
 
 /// As (gensym ...) in lisp.
 pub fn gensym(name: Vec<u8>) -> Vec<u8> {
+    #[cfg(feature = "verif-hooks")]
+    crate::verif_hooks::point(crate::verif_hooks::POINT_GENSYM);
     let count = ARGNAME_CTR.fetch_add(1, Ordering::SeqCst);
     let mut result_vec = name;
     let number_value = format!("{}", count + 1);
